@@ -31,6 +31,14 @@ QUICK_FIELDS = (
     Field("e", 3, "enum:Color", "oneof", group="g1"),
     Field("w", 12, "wrap:int32", "oneof", group="g3"),
 )
+# a second, small message: oneof members declared the way the plugin declares them for pydantic
+# dataclasses (group=..., optional=True), one group with a SINGLE member
+OPT_FIELDS = (
+    Field("z", 13, "int32", "oneof", group="g4", opt_member=True),
+    Field("qa", 14, "int32", "oneof", group="g5", opt_member=True),
+    Field("p", 6, "int32"),
+    Field("qb", 15, "string", "oneof", group="g5", opt_member=True),
+)
 THOROUGH_EXTRA = (
     Field("y", 7, "bytes", "oneof", group="g3"), Field("d", 8, "double", "oneof", group="g3"),
     Field("o", 10, "int32", "optional"),
@@ -39,13 +47,15 @@ VALUES = {
     "i": [0, 5], "s": ["", "x"], "e": [0, 1], "sub": [{}, {"a": 1}], "b": [False, True],
     "y": [b"", b"\x01"], "d": [0.0, 2.5], "t": [av.EPOCH, av.TS_ALPHA[3]],
     "u": [av.DUR_ALPHA[0], av.DUR_ALPHA[3]], "w": [0, 7],
+    "z": [0, 9], "qa": [0, 4], "qb": ["", "q"],
 }
-JSON_NAME = {"i": "i", "s": "s", "e": "e", "sub": "sub", "b": "b", "y": "y", "d": "d", "t": "t", "u": "u", "w": "w"}
+JSON_NAME = {"i": "i", "s": "s", "e": "e", "sub": "sub", "b": "b", "y": "y", "d": "d", "t": "t", "u": "u", "w": "w",
+             "z": "z", "qa": "qa", "qb": "qb"}
 
 
 class OneofSpace(Space):
     def __init__(self, tier: str):
-        fields = QUICK_FIELDS + (THOROUGH_EXTRA if tier == "thorough" else ())
+        fields = OPT_FIELDS if tier == "optstyle" else QUICK_FIELDS + (THOROUGH_EXTRA if tier == "thorough" else ())
         self.tier = tier
         self.schema = Schema("vfc07", (COLOR,), LIB_MSGS + (Msg("M", fields),))
         self.m = self.schema.msg("M")
@@ -123,6 +133,8 @@ class OneofSpace(Space):
                 ops.append(["parse", [list(a), list(b)]])
         dicts = [[["i", 1]], [["s", 0]], [["e", 1]], [["sub", 1]], [["b", 0]],
                  [["i", 1], ["b", 1]], [["i", 1], ["s", 1]], [["s", 1], ["i", 0]], []]
+        if self.tier == "optstyle":
+            dicts = [[["z", 1]], [["z", 0]], [["qa", 1]], [["qb", 0]], [["qa", 1], ["qb", 1]], [["z", 1], ["qa", 0]], []]
         for d in dicts:
             ops.append(["from_dict_inst", d])
             ops.append(["from_dict_cls", d])
@@ -138,6 +150,10 @@ class OneofSpace(Space):
         for f in self.members:
             for vi in range(2):
                 out.append([[f.name, vi]])
+        if self.tier == "optstyle":
+            out.append([["qa", 1], ["qb", 1]])
+            out.append([["z", 0], ["p", 1]])
+            return out
         out.append([["i", 1], ["s", 1]])       # illegal: two members of one group
         out.append([["s", 0], ["i", 0]])
         out.append([["i", 1], ["b", 1], ["p", 1]])
@@ -376,6 +392,12 @@ def run(ctx: Ctx) -> None:
     t = res["tally"]
     for vj in t.violations:
         ctx.add(Violation.from_json(vj))
+    # the optional-style message (same engine, separate space)
+    res2 = bfs(space("optstyle"), max_states=400000, is_known=ctx.is_known)
+    for vj in res2["tally"].violations:
+        ctx.add(Violation.from_json(vj))
+    ctx.coverage.update(optional_style_states=res2["states"], optional_style_transitions=res2["transitions"],
+                        optional_style_fixpoint=bool(res2["fixpoint"]))
     ctx.coverage.update(
         states=res["states"],
         transitions=res["transitions"],
@@ -401,7 +423,11 @@ def run(ctx: Ctx) -> None:
 
 
 def replay(case: dict) -> List[Violation]:
-    sp = space("thorough" if any(op[0] in ("set", "read") and op[1] in ("y", "d", "t") for op in case["history"] if len(op) > 1 and isinstance(op[1], str)) else "quick")
+    names = {op[1] for op in case["history"] if len(op) > 1 and isinstance(op[1], str)}
+    for op in case["history"]:
+        if len(op) > 1 and isinstance(op[1], list):
+            names |= {x[0] for x in op[1] if isinstance(x, list) and x}
+    sp = space("optstyle") if names & {"z", "qa", "qb"} else space("thorough" if any(op[0] in ("set", "read") and op[1] in ("y", "d", "t") for op in case["history"] if len(op) > 1 and isinstance(op[1], str)) else "quick")
     hist = case["history"]
     out = []
     try:
